@@ -38,6 +38,14 @@ def main():
             detail = [l.strip() for l in out.splitlines() if l.startswith("  ")][:1]
             results[c] = {"exit": p.returncode, "violation": v[0] if v else None, "detail": detail[0][:300] if detail else None}
             print(sid, c, "exit", p.returncode, (v[0][:140] if v else ""), (detail[0][:160] if detail else ""))
+            m = re.search(r"replay=(\S+)", v[0]) if v else None
+            if m and os.path.exists(m.group(1)) and "no-failing-input-found" not in v[0]:
+                q = subprocess.run([os.path.join(VERIF, "check"), c, "--replay", m.group(1)], stdout=subprocess.PIPE,
+                                   stderr=subprocess.STDOUT, cwd=VERIF)
+                again = "FAILS on the implementation" in q.stdout.decode()
+                results[c]["replay_fails_with_the_change"] = again
+                if not again:
+                    print(sid, c, "WARNING: the replay does not reproduce the failure with the change applied")
     finally:
         subprocess.run(["git", "-C", REPO, "checkout", "--", "."], check=True)
         # regenerated tables belong to the clean tree again
